@@ -772,6 +772,11 @@ pub fn regime_tags(spec: &DistSpec) -> Vec<String> {
             if p[0] / p[1] >= 30.0 {
                 t.push("ig:mean/shape>=30".into());
             }
+            // milder form of the same cancellation: output granularity ~ eps * (mean/shape)^2,
+            // atoms of mass ~ 5.4e-8 * (mean/shape)^2 >= 1e-6 in f32
+            if spec.scalar == Scalar::F32 && p[0] / p[1] >= 4.3 {
+                t.push("ig32:mean/shape>=4.3".into());
+            }
         }
         Family::Nig if p.len() == 2 => {
             // inner IG has mean 1/gamma and shape 1
@@ -779,12 +784,19 @@ pub fn regime_tags(spec: &DistSpec) -> Vec<String> {
             if 1.0 / g >= 30.0 {
                 t.push("ig:mean/shape>=30".into());
             }
+            if spec.scalar == Scalar::F32 && 1.0 / g >= 4.3 {
+                t.push("ig32:mean/shape>=4.3".into());
+            }
         }
         Family::Zeta if p.len() == 1 => {
             // the bias of the acceptance test is visible up to s ~ 1.5 in f32 and ~ 1.25 in f64
             let lim = if spec.scalar == Scalar::F32 { 1.5 } else { 1.25 };
             if p[0] <= lim {
                 t.push("zeta:s-near-1".into());
+            }
+            // f32: 1 + 1/x == 1 for proposals x >= 2^24; their mass is >= 1e-6 up to s ~ 1.85
+            if spec.scalar == Scalar::F32 && p[0] <= 1.85 {
+                t.push("zeta32:s<=1.85".into());
             }
         }
         Family::Frechet if p.len() == 3 => {
@@ -801,6 +813,10 @@ pub fn regime_tags(spec: &DistSpec) -> Vec<String> {
         Family::Hypergeometric if spec.n.len() == 3 => {
             if spec.n[0] >= 1u64 << 62 {
                 t.push("hyper:N>=2^62".into());
+            }
+            // H2PE compares sums of ln-factorials of magnitude N ln N in f64
+            if spec.n[0] >= 1u64 << 37 {
+                t.push("hyper:N>=2^37".into());
             }
         }
         Family::Poisson if p.len() == 1 && p[0] >= 1.2e19 => t.push("poisson:lambda>=1.2e19".into()),
